@@ -6,6 +6,7 @@
 import AuthProofs.StateInventory
 import AuthProofs.MemoryTTL
 import AuthProofs.RedisTTL
+import AuthProofs.CodeEquivStore
 namespace AuthProps.C10
 open AuthModel
 
@@ -103,6 +104,46 @@ def sX : MSess := { tokens := none, auth := none, added := 0, accessed := 0 }
 example : (MemStore.empty 10000000000 0).expired 10000000000 sX = false := by decide
 example : (MemStore.empty 10000000000 0).expired 10000000001 sX = true := by decide
 
+/-! ### the same, about the code as translated from the source (Generated/CodeStore.lean: `memoryStore.live`) -/
+
+/-- THE CODE's `live` - the function every memory-store access goes through - is the model's `live`: it cannot panic on
+    a well-formed store, answers "absent" exactly when the model does, deletes exactly the expired session and keeps
+    the store well-formed -/
+theorem code_live_is_model (env : Go.Env) (m : Pb.MemoryStore) (id : Str) (now : Int)
+    (hwf : CodeEquiv.StoreWF m) (hnow : env.now.unixNano = some now) :
+    ∃ s m', Code.live env m id = .ok (s, m') ∧
+      CodeEquiv.sessOpt s = ((CodeEquiv.storeOf m).live now id).2 ∧
+      (CodeEquiv.storeOf m').abs = (CodeEquiv.storeOf m).abs ∧ (CodeEquiv.storeOf m').idle = (CodeEquiv.storeOf m).idle ∧
+      (∀ k, (CodeEquiv.storeOf m').sessions k = ((CodeEquiv.storeOf m).live now id).1.sessions k) ∧
+      CodeEquiv.StoreWF m' :=
+  CodeEquiv.code_live env m id now hwf hnow
+
+/-- THE CODE never hands out a session past its absolute timeout, and drops it -/
+theorem code_never_late_absolute (env : Go.Env) (m : Pb.MemoryStore) (id : Str) (now : Int)
+    (hwf : CodeEquiv.StoreWF m) (hnow : env.now.unixNano = some now) (s : MSess)
+    (hs : (CodeEquiv.storeOf m).sessions id = some s) (habs : m.absoluteSessionTimeout > 0)
+    (hlate : s.added + m.absoluteSessionTimeout < now) :
+    ∃ r m', Code.live env m id = .ok (r, m') ∧ r.isNil = true ∧ (CodeEquiv.storeOf m').sessions id = none :=
+  CodeEquiv.code_live_absolute env m id now hwf hnow s hs habs hlate
+
+/-- THE CODE never hands out a session past its idle timeout, and drops it -/
+theorem code_never_late_idle (env : Go.Env) (m : Pb.MemoryStore) (id : Str) (now : Int)
+    (hwf : CodeEquiv.StoreWF m) (hnow : env.now.unixNano = some now) (s : MSess)
+    (hs : (CodeEquiv.storeOf m).sessions id = some s) (hidle : m.idleSessionTimeout > 0)
+    (hlate : s.accessed + m.idleSessionTimeout < now) :
+    ∃ r m', Code.live env m id = .ok (r, m') ∧ r.isNil = true ∧ (CodeEquiv.storeOf m').sessions id = none :=
+  CodeEquiv.code_live_idle env m id now hwf hnow s hs hidle hlate
+
+/-- the hypotheses are satisfiable, and the boundary is where the property puts it: at exactly `accessed + idle` the
+    session is still served, one nanosecond later it is gone -/
+example : CodeEquiv.StoreWF CodeEquiv.exStore ∧
+    (Code.live { now := { unixNano := some 250 } } CodeEquiv.exStore (AuthModel.B "s1")).map (fun r => r.1.isNil) = .ok false ∧
+    (Code.live { now := { unixNano := some 251 } } CodeEquiv.exStore (AuthModel.B "s1")).map (fun r => r.1.isNil) = .ok true := by
+  refine ⟨⟨rfl, ?_⟩, by decide, by decide⟩
+  intro kv h
+  simp [CodeEquiv.exStore] at h
+  subst h; simp
+
 /-- NO HIDDEN STATE: the stores keep nothing but what the model says they keep: regenerated inventory of every package-level variable and struct field of internal/oidc; the Redis store has no mutable field (all its state is server-side), the memory store has its mutex, its map and the four fields of an entry. -/
 theorem no_hidden_state : StoreInventory := store_inventory
 
@@ -122,3 +163,6 @@ end AuthProps.C10
 #print axioms AuthProps.C10.redis_read_keeps_created
 #print axioms AuthProps.C10.redis_write_uses_stored_creation
 #print axioms AuthProps.C10.no_hidden_state
+#print axioms AuthProps.C10.code_live_is_model
+#print axioms AuthProps.C10.code_never_late_absolute
+#print axioms AuthProps.C10.code_never_late_idle
